@@ -4,6 +4,7 @@ import json, os, sys
 HERE = os.path.dirname(os.path.dirname(os.path.abspath(__file__)))
 sys.path.insert(0, HERE)
 from units.registry import PROPS, NOT_APPLICABLE, LEVELS
+from vlib.bounded import SUITES
 
 checks = []
 for pid in sorted(PROPS):
@@ -15,9 +16,9 @@ for pid in sorted(PROPS):
         'evidence_file': '/verif/evidence/%s.json' % pid,
         'replay_cmd_template': './check %s --replay {path}' % pid,
         'engine': 'contract-verifier',
-        'level_claimed': {'category': 'proof', 'text': L['text'], 'design_ref': L.get('design_ref', 'DESIGN.md section 4, ' + pid)},
+        'level_claimed': {'category': 'proof', 'text': L['text'] + ' BOUNDED STAND-INS on the real code, run by the same command and labelled bounded in the evidence (never counted as proved): ' + '; '.join('%s (for: %s)' % (n, w) for n, _f, w, _b in SUITES.get(pid, [])) + '.', 'design_ref': L.get('design_ref', 'DESIGN.md section 4, ' + pid)},
         'level_note': L['note'],
-        'technique': L.get('technique', 'contract-based deductive verification (Verus on functions extracted mechanically from /repo each run)'),
+        'technique': L.get('technique', 'contract-based deductive verification (Verus on functions extracted mechanically from /repo each run; Kani for loop-free leaves); by-construction bounded checks of the real code stand in for functions no contract reaches and supply replayed failing inputs'),
     })
 m = {
     'version': 1,
